@@ -648,7 +648,7 @@ def main():
                       'the application alphabet is the one of the property text (send, recv, poll, setsockopt busy); '
                       'setsockopt(SO_RCVBUF) on an established socket (changes recv_buf but not recv_win) is not part of it',
                       'wires are reliable FIFOs (what llc.collect/dispatch over a working link provide); loss is C04/C12']
-    ck.coq(gen=['DlcK'], targets=['Proofs/DlcBase.vo', 'Proofs/Dlc.vo', 'Proofs/DlcCor.vo', 'Proofs/DlcLive.vo', 'Bridge/Dlc.vo'], props=['C05', 'C05Bridge'])
+    ck.coq(gen=['DlcK'], targets=['Proofs/DlcBase.vo', 'Proofs/Dlc.vo', 'Proofs/DlcCor.vo', 'Proofs/DlcLive.vo', 'Proofs/DlcChannel.vo', 'Bridge/Dlc.vo'], props=['C05', 'C05Bridge', 'C05Channel'])
     mr = ck.model()
     if mr is None:
         ck.finish()
